@@ -51,6 +51,9 @@ MUTANTS = [
     ("paginate_pages_lookahead", "traph/traph.py", "                if k is not None and n >= k:\n                    return {\n                        \"done\": False,\n                        \"count\": n - 1,", "                if k is not None and n >= k and (n > 2 or not crawled):\n                    return {\n                        \"done\": False,\n                        \"count\": n - 1,", ["C09"]),
     ("revert_F2", "traph/helpers.py", "        yield True, string\n        return\n", "        yield True, string\n", ["C19", "C02"]),
     ("heap_bound_gt_to_ge", "traph/traph.py", "                    if len(pages) > pages_count:\n                        heapq.heappop(pages)", "                    if len(pages) >= pages_count and len(pages) > 1:\n                        heapq.heappop(pages)", ["C20"]),
+    ("write_handler_truncates_rewrites", "traph/storage/file.py", "        self.file.write(data)\n\n        # TODO: can be avoided if we do not append", "        position = self.file.tell()\n        try:\n            self.file.write(data)\n        except (IOError, OSError):\n            self.file.truncate(position)\n            raise\n\n        # TODO: can be avoided if we do not append", ["C18", "C01"]),
+    ("short_read_taken_as_missing_block", "traph/storage/file.py", "        return data or None\n", "        if len(data) < self.block_size:\n            return None\n\n        return data\n", ["C19"]),
+    ("revert_F14", "traph/traph.py", "            re.compile(default_webentity_creation_rule, re.I)\n\n            for pattern in webentity_creation_rules.values():\n                re.compile(pattern, re.I)\n", "", ["C15"]),
     ("most_linked_weighted", "traph/traph.py", "                    for _ in self.link_store.weighted_link_nodes_iter(node.inlinks()):\n                        indegree += 1", "                    for _ in self.link_store.link_nodes_iter(node.inlinks()):\n                        indegree += 1", ["C20"]),
 ]
 
